@@ -7,7 +7,8 @@ def run(run):
     run.rule = ("(a) free-running: 2-16 worker processes released by a barrier with randomised start offsets and page orders (templates "
                 "and #invoke) on one database file, with/without a backup file and with/without the sandbox bootstrap page; "
                 "(b) single-preemption schedules: one worker is paused at each executed line of create_db/init_wikidata_cache/"
-                "initialize_lua/add_empty_sandbox_lua_module while another worker runs to completion, then resumed; (c) workers that "
+                "initialize_lua/add_empty_sandbox_lua_module while another worker runs to completion, then resumed - at the lines of "
+                "add_empty_sandbox_lua_module also with the other worker inside a get_all_pages() loop; (c) workers that "
                 "keep a get_all_pages() read cursor open while expanding (free-running and staged: a second context opens between "
                 "a worker's first Lua-free page and its first #invoke); non-trivial "
                 "= at least two workers with overlapping start-up; distinct by JSON hash")
@@ -55,6 +56,11 @@ def run(run):
                     continue
                 cases.append({"backup": backup, "bootstrap": bootstrap, "kind": "gated",
                               "workers": [{"pages": [1, 0], "gate": {"line": k}}, {"pages": [1, 4]}]})
+                if k <= len(line_fns) and line_fns[k - 1] == "add_empty_sandbox_lua_module" and not backup:
+                    # the same pause, while the other worker walks get_all_pages() (its read cursor open) and reaches its
+                    # first Lua use
+                    cases.append({"backup": backup, "bootstrap": bootstrap, "kind": "gated-iterating",
+                                  "workers": [{"pages": [1, 0], "gate": {"line": k}}, {"pages": [0, 1, 4], "iterate": True}]})
     res = lib.run_impl("c20", [dict(c, _timeout=200) for c in cases], shards=max(2, lib.NCPU // 4))
     for c, r in zip(cases, res):
         run.count(c, len(c["workers"]) >= 2, "%s:backup=%s" % (c["kind"], c["backup"]))
